@@ -57,3 +57,33 @@ func verifRoundTripBMPHeader(h *BMPHeader) bool {
 	}
 	return g == *h
 }
+
+// decode(encode(h)) == h for the per-peer header (timestamp excluded: it is a float64 split into two
+// integers; IPv4 peer address and BGP id: netip loses an IPv6 zone, so IPv6 is not decided here).
+//@ func verifRoundTripBMPPeerHeader
+//@   requires h != nil && h.PeerBGPID.Is4()
+//@   requires h.PeerType == 3 ==> !h.PeerAddress.IsValid()
+//@   requires h.PeerType != 3 ==> h.PeerAddress.Is4() && h.Flags & 128 == 0
+//@   inline-calls
+//@   modifies nothing
+//@   ensures result
+func verifRoundTripBMPPeerHeader(h *BMPPeerHeader) bool {
+	b, err := h.Serialize()
+	if err != nil {
+		return false
+	}
+	var g BMPPeerHeader
+	if err := g.DecodeFromBytes(b); err != nil {
+		return false
+	}
+	if g.PeerType != h.PeerType || g.Flags != h.Flags {
+		return false
+	}
+	if g.PeerDistinguisher != h.PeerDistinguisher || g.PeerAS != h.PeerAS {
+		return false
+	}
+	if g.PeerAddress != h.PeerAddress {
+		return false
+	}
+	return g.PeerBGPID == h.PeerBGPID
+}
